@@ -23,6 +23,8 @@ import Umya.Lemmas.CellDecode
 import Umya.Lemmas.CellBridge
 import Umya.Lemmas.TablesGen
 import Umya.Spec.XmlLex
+import Umya.Thm.C02Sheet   -- sheet level (theorems C02_sheet_decodes, C02_merges_decode, C02_hyperlinks_decode, …)
+import Umya.Thm.C02Book    -- workbook level (C02_book_decodes_partial, …); same namespace, audited with this module
 namespace Umya.Thm.C02
 open Umya.XmlEsc Umya.XmlChannel
 
